@@ -77,6 +77,8 @@ Section WithOracles.
 Variable truth : N -> N -> option lstats.     (* language id -> content id -> counter result *)
 Variable csize : N -> N.                       (* content id -> size in bytes *)
 Variable chash : langs -> N.                   (* compute_config_hash: [languages] table -> hash value *)
+Variable keyable : path -> bool.               (* the path has a cache key: it is valid UTF-8 (file_path.to_str());
+                                                  the key is then the absolute path, i.e. the path itself here *)
 
 (* process_file_with_cache for one file: (Success stats | nothing, cache afterwards) *)
 Definition process (cfg : langs) (now : N) (es : list (path * centry)) (pf : path * file)
@@ -90,9 +92,9 @@ Definition process (cfg : langs) (now : N) (es : list (path * centry)) (pf : pat
     let miss :=
       match truth l (f_cid f) with
       | None => (None, es)                                       (* Skipped: IgnoredByDirective *)
-      | Some s => (Some (p, s), if store_ok m now then set_key p (mkCE (f_cid f) s m sz) es else es)
+      | Some s => (Some (p, s), if keyable p && store_ok m now then set_key p (mkCE (f_cid f) s m sz) es else es)
       end in
-    match lookup p es with
+    match (if keyable p then lookup p es else None) with
     | Some e => if metadata_matches e m sz then (Some (p, ce_stats e), es) else miss
     | None => miss
     end
